@@ -70,6 +70,11 @@ def run(ctx):
     ctx.set("simulated_ops", res2[-1]["summary"]["ops"])
     ctx.sample({"mode": "simulated", "ops": [[o["op"], o["a"], o["b"], o["res"]] for o in beh[0]["hist"]]})
 
+    # ---- P2, implementation -> specification: histories chosen outside the model (9 paths, 40-60 ops, far beyond
+    # the bounded exploration) are applied to the real graph, every event is *recorded* with its outcome and all
+    # public queries, and TLC validates the recorded trace against ModuleGraphRef (TraceGraph.tla)
+    trace_validation(ctx, vh, base, nruns=60 if quick else 800, nops=40 if quick else 60)
+
     # ---- tsort on every small graph
     rt = tlc("graph/MC_TSort.tla", cfg="MC_TSort_q.cfg" if quick else "MC_TSort_t.cfg", workers=8,
              tag="c21t", timeout=1500, coverage=False, heap="8g")
@@ -98,6 +103,107 @@ def run(ctx):
         "sort order is judged by the topological-order property, not a particular order"]
 
 
+def gen_runs(seed, nruns, nops):
+    """Operation sequences over p1..p9.  A rename target is a name never used before in the run (the reference
+    action Rename is specified only for a fresh new name); every other argument is drawn from a core of 3-6
+    names plus the names used so far."""
+    import random
+    rnd = random.Random(seed * 7919 + 21)
+    U = [f"p{i}" for i in range(1, 10)]
+    runs = []
+    for _ in range(nruns):
+        used, ops = set(), []
+        core = U[:rnd.choice([3, 4, 5, 6])]
+        for _ in range(nops):
+            pool = sorted(set(core) | used)
+            k = rnd.choices(["add", "incref", "remove", "rename", "sort"], [3, 8, 2, 2, 2])[0]
+            a, b = rnd.choice(pool), rnd.choice(pool)
+            if k == "rename":
+                fresh = [p for p in U if p not in used]
+                if not fresh:
+                    continue
+                b = rnd.choice(fresh)
+                if a == b:
+                    continue
+            if k in ("add", "remove"):
+                b = a
+            if k == "sort":
+                a = b = ""
+            else:
+                used.add(a)
+                used.add(b)
+            ops.append({"op": k, "a": a, "b": b})
+        runs.append({"ops": ops, "universe": U})
+    return runs
+
+
+def validate_trace(events, path, tag):
+    """TLC on TraceGraph.tla; returns the number of leading events explained by the specification."""
+    with open(path, "w") as f:
+        for e in events:
+            f.write(json.dumps(e) + "\n")
+    r = tlc("graph/TraceGraph.tla", cfg="TraceGraph.cfg", workers=1, coverage=False, tag=tag, timeout=1200,
+            env_extra={"TRACE": path}, postcondition_ok=True, heap="4g")
+    import re
+    m = re.search(r'<<"MATCHED", (\d+), (\d+)>>', r.out)
+    if not m or int(m.group(2)) != len(events):
+        if r.invariant_violated:
+            # the design invariant (Acyclic) failed on a state of the recorded execution
+            return r, max(0, r.distinct - 1), r.invariant_violated
+        raise ToolError("trace validation: no MATCHED line\n" + r.out[-1500:])
+    return r, int(m.group(1)), None
+
+
+def trace_validation(ctx, vh, base, nruns, nops):
+    runs = gen_runs(ctx.seed, nruns, nops)
+    events = run_vh(vh, "graph-record", runs, args=[base])
+    if sum(1 for e in events if e["op"] == "reset") != len(runs):
+        raise ToolError("graph-record: missing runs")
+    tdir = scratch("c21trace")
+    total, rejected, kinds = len(events), 0, {}
+    for e in events:
+        k = e["op"] + "/" + str(e["res"]) if e["op"] != "panic" else "panic"
+        kinds[k] = kinds.get(k, 0) + 1
+    for need in ("incref/ok", "incref/cycle", "remove/ok", "rename/ok", "sort/ok", "sort/dangling"):
+        if not kinds.get(need):
+            raise ToolError(f"trace validation: recorded runs never show {need} (vacuity guard)")
+    # canary: one corrupted recorded field must make TLC stop exactly there
+    bad = json.loads(json.dumps(events[:400]))
+    at = next(i for i in range(150, len(bad)) if any(bad[i].get("anc", {}).get(p) for p in bad[i].get("anc", {})))
+    p0 = next(p for p in bad[at]["anc"] if bad[at]["anc"][p])
+    bad[at]["anc"][p0] = bad[at]["anc"][p0][1:]
+    _, k, _ = validate_trace(bad, os.path.join(tdir, "canary.ndjson"), "c21tc")
+    if k != at:
+        raise ToolError(f"trace canary: corrupted event {at + 1} but TLC matched {k} events")
+    ctx.set("trace_canary_rejected_at_event", at + 1)
+    rounds = 0
+    while events and rounds < 8:
+        rounds += 1
+        r, k, inv = validate_trace(events, os.path.join(tdir, "trace.ndjson"), "c21tv")
+        if rounds == 1:
+            ctx.tlc_stats(r, "TraceGraph (recorded executions of the real ModuleGraph validated against ModuleGraphRef)")
+        if k == len(events) and inv is None:
+            break
+        # event k+1 is not a behaviour of the specification: report it, drop its run, validate the rest
+        ev = events[k] if k < len(events) else events[-1]
+        rejected += 1
+        run_i = ev["run"]
+        ops = runs[run_i]["ops"][:ev["step"]]
+        prev = events[k - 1] if k > 0 else {}
+        ctx.violation({"kind": "trace-rejected" if ev["op"] != "panic" else "panic", "after": ev.get("during", ev["op"]),
+                       "query": inv},
+                      {"mode": "recorded-trace", "ops": ops, "rejected_event": ev, "state_before": prev,
+                       "reproduce": "bin/check C21 --replay <this file>"},
+                      f"recorded execution of ModuleGraph is not a behaviour of ModuleGraphRef at step {ev['step']} "
+                      f"({ev.get('during', ev['op'])} {ev['a']} {ev['b']} -> {ev['res']})")
+        events = [e for e in events if e["run"] != run_i]
+    ctx.set("trace_events_recorded", total)
+    ctx.set("trace_runs", len(runs))
+    ctx.set("trace_event_kinds", kinds)
+    ctx.set("trace_runs_rejected", rejected)
+    ctx.sample({"mode": "recorded-trace", "ops": [[o["op"], o["a"], o["b"]] for o in runs[0]["ops"][:12]]})
+
+
 def handle(ctx, res, recs, mode):
     for m in res[:-1]:
         hist = [{k: o[k] for k in ("op", "a", "b", "res")} for o in m["hist"]]
@@ -111,6 +217,13 @@ def replay(path):
     vh, _ = build_core()
     doc = json.load(open(path))
     base = scratch("c21r")
+    if "ops" in doc:
+        evs = run_vh(vh, "graph-record", [{"ops": doc["ops"], "universe": [f"p{i}" for i in range(1, 10)]}], args=[base])
+        _, k, inv = validate_trace(evs, os.path.join(scratch("c21trace-r"), "trace.ndjson"), "c21tr")
+        print(f"recorded {len(evs)} events; the specification explains the first {k}" + (f"; invariant {inv}" if inv else ""))
+        if k < len(evs):
+            print("first unexplained event:", json.dumps(evs[k]))
+        return 0
     if "graph" in doc:
         res = run_vh(vh, "tsort", [doc["graph"]])
     else:
